@@ -63,11 +63,18 @@ impl Nu {
 
     /// Kill the server process and start it again on the same store.
     pub fn restart(&mut self) -> Check {
+        self.restart_after(|_| Ok(()))
+    }
+
+    /// The same, with `before_serving` run on the reopened store before the loops start (frames
+    /// that reached the store but were never seen by the server that died).
+    pub fn restart_after(&mut self, before_serving: impl FnOnce(&mut Exec) -> Check) -> Check {
         self.exec.kill_ref();
         self.exec = Exec::spawn(&self.dir.path, &ExecOpts::default()).map_err(|e| match e {
             ExecErr::Panic(p) => Fail::new(Class::Panic, format!("the store does not reopen: {p}")),
             e => infra(format!("respawn: {e}")),
         })?;
+        before_serving(&mut self.exec)?;
         self.boot()
     }
 
